@@ -164,7 +164,7 @@ func (t *loopTr) bigMutCall(c *ast.CallExpr) types.Object {
 // bigPanics: c is a call that can panic by itself (Mod by zero) or yields the panic outcome (ModInverse, see the header).
 func (t *loopTr) bigPanics(c *ast.CallExpr) bool {
 	_, name := t.bigMethod(c)
-	return name == "Mod" || name == "ModInverse" || t.big2Panics(c) || t.keyPanics(c) // (stages 12, 13)
+	return name == "Mod" || name == "ModInverse" || t.big2Panics(c) || t.keyPanics(c) || t.pow2Panics(c) // (stages 12, 13, 14)
 }
 
 // ---------------------------------------------------------------- the receiver
@@ -508,7 +508,7 @@ func (t *loopTr) bigCheck() {
 				case t.bigFreshExpr(e):
 					return true // the value of the chain is the value of the last operation
 				case shape == "var" && isLocal(e.(*ast.Ident)):
-					if _, isStmt := callParent.(*ast.ExprStmt); !isStmt && !t.big2ChainOK(call, stack) {
+					if _, isStmt := callParent.(*ast.ExprStmt); !isStmt && !t.big2ChainOK(call, stack) && !t.pow2NestedOK(call, stack) {
 						t.fail(call, "`%s` returns its receiver: using the result would alias %s (only supported as a statement of its own, or on new(big.Int))", t.p.src(call), src)
 					}
 					return true
@@ -662,6 +662,9 @@ func (t *loopTr) bigOpValue(c *ast.CallExpr, name string) string {
 	if v, ok := t.big2OpValue(c, name); ok {
 		return v // stage 12 (loops_big2.go)
 	}
+	if v, ok := t.pow2OpValue(c, name); ok {
+		return v // stage 14 (loops_pow2.go): SetUint64, Quo
+	}
 	arity := map[string]int{"Mul": 2, "Add": 2, "Sub": 2, "Mod": 2, "Lsh": 2, "Set": 1, "SetInt64": 1}[name]
 	if len(c.Args) != arity || c.Ellipsis.IsValid() {
 		t.fail(c, "arity of %s", name)
@@ -751,8 +754,16 @@ func (t *loopTr) bigStmt(s *ast.ExprStmt, c *ast.CallExpr, o types.Object) []bin
 	if !local || t.params[o] || t.isField(o) || !isBigIntPtr(o.Type()) {
 		t.fail(s, "%s is the receiver of the modifying method %s: only local *big.Int variables may be modified", o.Name(), name)
 	}
+	// stage 14 (loops_pow2.go): operands that are themselves modifying calls on local variables are executed first, in order
+	var bs []binding
+	if c2, inner := t.pow2Hoist(c); len(inner) > 0 {
+		for _, in := range inner {
+			bs = append(bs, t.bigStmt(&ast.ExprStmt{X: in}, in, t.bigMutCall(in))...)
+		}
+		c = c2
+	}
 	val := t.bigOpValue(c, name)
-	return []binding{{name: vname, kind: kBig, val: val, checks: t.takeChecks()}}
+	return append(bs, binding{name: vname, kind: kBig, val: val, checks: t.takeChecks()})
 }
 
 // bigModInverseStmt translates `v := new(big.Int).ModInverse(g, n)` (see bigHeaderText); ok = false: s is not that.
